@@ -571,13 +571,19 @@ def fault_leg(ck, exe, work, thorough):
     fdir = os.path.join(work, "fault"); os.makedirs(fdir, exist_ok=True)
     stat = {"scenarios": 0, "runs": 0, "failure_reported": 0, "success_and_data_correct": 0, "calls_per_window": {}}
     bad = None
+    plain_bad = None
     for name, script in fault_scenarios(os.path.join(fdir, "f.adf")).items():
         trace = os.path.join(fdir, "trace.txt")
         if os.path.exists(trace):
             os.unlink(trace)
         out, outcome, err = ip.run_ip(ipso, [exe], fdir, trace=trace, stdin="\n".join(script) + "\n")
-        if outcome != "ok" or oracle_failure(out):
-            raise vlib.Infra("fault leg: the scenario %r does not run cleanly without a fault (%s)" % (name, outcome))
+        f0 = oracle_failure(out) if outcome == "ok" else {"outcome": outcome, "stderr": err[-300:]}
+        if f0:
+            # not a fault-injection matter: the scenario itself gives a wrong answer (reported by the caller as a plain history)
+            stat.setdefault("scenarios_failing_without_fault", []).append(name)
+            if plain_bad is None:
+                plain_bad = (name, script, f0, outcome)
+            continue
         # fault positions = the write / lseek / sync calls of the window (a failing READ that loads the write-back block is
         # swallowed by ADFI_write_file: C14_read_error_swallowed_refuted, outside the property "write, seek or close")
         ks = []
@@ -600,7 +606,7 @@ def fault_leg(ck, exe, work, thorough):
                 if f and bad is None:
                     bad = dict(pack(script), mode="fault", scenario=name, fault="%d:%s" % (k, kind), failure=f, what=WHAT[KEY_STATUS],
                                oracle="plain Python array; a write that reported success must read back")
-    return stat, bad
+    return stat, bad, plain_bad
 
 
 # ----------------------------------------------------------------------------- the check
@@ -696,10 +702,15 @@ def run_extra(ck, pid="C02c"):
         if os.path.exists(p):
             os.unlink(p)
     pool.shutdown()
-    fstat, fbad = fault_leg(ck, exe, work, thorough)
+    fstat, fbad, fplain = fault_leg(ck, exe, work, thorough)
     ex["fault_injection_around_growth"] = fstat
     if fbad:
         findings.setdefault(KEY_STATUS, fbad)
+    if fplain:
+        name, script, f0, oc = fplain
+        script = [l for l in script if l not in ("arm", "disarm")]
+        out, outcome, stack, model = run_hist(exe, script, cfg)
+        judge("fault-scenario:" + name, script, out, outcome, stack, model)
     ex["histories"] = stats
     ck.extra.setdefault("input_distribution_c02c", stats)
 
